@@ -1,4 +1,633 @@
+/-
+C07 — A disturbed SDO transfer fails loudly and does not poison the next one.
+
+Theorems about the client model (`CanopenModel/Sdo/Client.lean`) against *arbitrary* peers and
+against the strict server behind a response-disturbing wrapper (`CanopenModel/Sdo/Disturb.lean`).
+A disturbance changes what the client finds in its response queue; requests reach the server.
+
+* `timeout_aborts`, `abort_raises`: every client step goes through `request_response`; whatever
+  the peer, an unanswered request is followed by the abort frame 0x05040000 and a communication
+  error, an abort frame raises the aborted error with exactly its code.
+* `download_never_silently_wrong`: for ANY peer that forwards requests to the strict server and
+  alters the responses in ANY way (any number of disturbances of any kind), a download that
+  returns normally has made the server commit exactly the payload.
+* `upload_never_silently_wrong`: under any *schedule* of disturbances of the kinds the property
+  lists (each step independently: none, lost, abort frame, wrong toggle, wrong command
+  specifier, wrong multiplexer, duplicate), an upload that returns normally returns exactly the
+  value the server holds.
+* `next_transfer_clean`: after anything — any phase the server was left in, any stale content of
+  the queue — the next undisturbed transfer completes exactly (C01's theorems need no more).
+-/
 import CanopenModel.Sdo.Disturb
+import CanopenProofs.C01
+
 namespace Canopen.C07
-theorem timeout_aborts : True := trivial
+open Canopen Canopen.Sdo Canopen.Spec Canopen.Gen.SdoConst Canopen.C01
+
+/-! ## every exchange: time-out and abort -/
+
+/-- **A lost response makes the client emit the time-out abort frame.**  For any peer, any
+    channel state and any request: if nothing is in the queue after the request was sent, the
+    client sends `80 00 00 00 00 00 04 05` next and raises the communication error.  Every step
+    of every expedited and segmented transfer is such an exchange. -/
+theorem timeout_aborts {σ} (P : Peer σ) (c : Chan σ) (req : Bytes) (h : (P c.peer req).2 = []) :
+    ∃ c', requestResponse P c req = (c', .error .comm) ∧
+      c'.sent = c.sent ++ [req, [0x80, 0, 0, 0, 0x00, 0x00, 0x04, 0x05]] := by
+  simp only [requestResponse, send, h, List.append_nil, List.nil_append]
+  refine ⟨_, rfl, ?_⟩
+  simp [abortReq, REQUEST_ABORTED, leBytes]
+
+/-- **An abort frame raises the aborted error with exactly the received code**, whatever was in
+    the queue before and whatever follows it. -/
+theorem abort_raises {σ} (P : Peer σ) (c : Chan σ) (req : Bytes) (a b d code : Nat) (rest : List Bytes)
+    (hc : code < 2 ^ 32) (h : (P c.peer req).2 = ([0x80, a, b, d] ++ leBytes 4 code) :: rest) :
+    ∃ c', requestResponse P c req = (c', .error (.aborted code)) ∧ c'.sent = c.sent ++ [req] := by
+  simp only [requestResponse, send, h, List.nil_append]
+  exact ⟨_, by rw [client_decodes_abort code a b d hc], rfl⟩
+
+/-! ## downloads: the frames of a successful call do not depend on the responses -/
+
+/-- what a successful `request_response` did to the channel, for any peer -/
+theorem rr_ok {σ} (P : Peer σ) (c c' : Chan σ) (req r : Bytes)
+    (h : requestResponse P c req = (c', .ok r)) :
+    c'.peer = (P c.peer req).1 ∧ c'.sent = c.sent ++ [req] := by
+  simp only [requestResponse, send] at h
+  split at h
+  · simp at h
+  · rename_i r0 rest hq
+    simp only [Prod.mk.injEq] at h
+    obtain ⟨h1, _⟩ := h
+    subst h1
+    exact ⟨rfl, rfl⟩
+
+/-- advance a peer through a list of request frames -/
+def feedPeer {σ} (P : Peer σ) (p : σ) (frames : List Bytes) : σ :=
+  frames.foldl (fun q f => (P q f).1) p
+
+theorem feedPeer_append {σ} (P : Peer σ) (p : σ) (a b : List Bytes) :
+    feedPeer P p (a ++ b) = feedPeer P (feedPeer P p a) b := by
+  simp [feedPeer, List.foldl_append]
+
+/-- a successful step: the peer saw exactly `frames`, and `frames` were appended to the log -/
+def Adv {σ} (P : Peer σ) (c c' : Chan σ) (frames : List Bytes) : Prop :=
+  c'.peer = feedPeer P c.peer frames ∧ c'.sent = c.sent ++ frames
+
+theorem Adv.trans {σ} {P : Peer σ} {c c' c'' : Chan σ} {f g : List Bytes}
+    (h1 : Adv P c c' f) (h2 : Adv P c' c'' g) : Adv P c c'' (f ++ g) := by
+  refine ⟨?_, ?_⟩
+  · rw [h2.1, h1.1, feedPeer_append]
+  · rw [h2.2, h1.2, List.append_assoc]
+
+theorem Adv.refl {σ} (P : Peer σ) (c : Chan σ) : Adv P c c [] := ⟨rfl, by simp⟩
+
+theorem Adv.of_rr {σ} {P : Peer σ} {c c' : Chan σ} {req r : Bytes}
+    (h : requestResponse P c req = (c', .ok r)) : Adv P c c' [req] := by
+  obtain ⟨h1, h2⟩ := rr_ok P c c' req r h
+  exact ⟨by simp [feedPeer, h1], h2⟩
+
+/-- the request frame of one raw write (none when an expedited stream is still waiting for data) -/
+def writeFrames (w : WS) (b : Bytes) : List Bytes :=
+  match w.expHeader with
+  | some hdr => if b.length < w.size.getD 0 then [] else [hdr ++ padTo 4 b]
+  | none => [segDownCmd w.toggle (min b.length 7) (reachesSize w.size (w.pos + min b.length 7))
+              :: padTo 7 (b.take (min b.length 7))]
+
+/-- the stream state and count after a successful raw write -/
+def writeResult (w : WS) (b : Bytes) : WS × Nat :=
+  match w.expHeader with
+  | some _ => if b.length < w.size.getD 0 then (w, 0)
+              else ({ w with done := true, pos := w.pos + b.length }, b.length)
+  | none => ({ w with toggle := w.toggle ^^^ TOGGLE_BIT,
+                      done := reachesSize w.size (w.pos + min b.length 7),
+                      pos := w.pos + min b.length 7 }, min b.length 7)
+
+/-- a successful raw write, against any peer: what was sent and what the stream became depend
+    only on the stream state and the bytes offered — not on the response -/
+theorem wsWrite_ok {σ} (P : Peer σ) (c c' : Chan σ) (w w' : WS) (b : Bytes) (n : Nat)
+    (h : wsWrite P c w b = (c', .ok (w', n))) :
+    Adv P c c' (writeFrames w b) ∧ (w', n) = writeResult w b := by
+  obtain ⟨size, pos, toggle, eh, done⟩ := w
+  cases done
+  · cases eh with
+    | some hdr =>
+      simp only [wsWrite, Bool.false_eq_true, if_false, writeFrames, writeResult] at h ⊢
+      by_cases hlt : b.length < size.getD 0
+      · simp only [hlt, if_true, Prod.mk.injEq, Except.ok.injEq] at h ⊢
+        obtain ⟨rfl, rfl, rfl⟩ := h
+        refine ⟨Adv.refl P c, ?_⟩
+        simp
+      · simp only [hlt, if_false] at h ⊢
+        by_cases h4 : b.length > 4
+        · simp [h4] at h
+        · simp only [h4, if_false] at h
+          cases hrr : requestResponse P c (hdr ++ padTo 4 b) with
+          | mk c1 r1 =>
+            rw [hrr] at h
+            cases r1 with
+            | error e => simp at h
+            | ok r =>
+              simp only at h
+              split at h
+              · simp at h
+              · simp only [Prod.mk.injEq, Except.ok.injEq] at h
+                obtain ⟨rfl, rfl, rfl⟩ := h
+                exact ⟨Adv.of_rr hrr, rfl⟩
+    | none =>
+      simp only [wsWrite, Bool.false_eq_true, if_false, writeFrames, writeResult] at h ⊢
+      cases hrr : requestResponse P c
+          (segDownCmd toggle (min b.length 7) (reachesSize size (pos + min b.length 7)) ::
+            padTo 7 (b.take (min b.length 7))) with
+      | mk c1 r1 =>
+        rw [hrr] at h
+        cases r1 with
+        | error e => simp at h
+        | ok r =>
+          simp only at h
+          split at h
+          · simp at h
+          · simp only [Prod.mk.injEq, Except.ok.injEq] at h
+            obtain ⟨rfl, rfl, rfl⟩ := h
+            exact ⟨Adv.of_rr hrr, rfl⟩
+  · simp [wsWrite] at h
+
+/-- the frames of feeding a payload through raw writes, assuming every write succeeds -/
+def feedFrames : Nat → WS → Bytes → List Nat → List Bytes × WS
+  | 0, w, _, _ => ([], w)
+  | fuel + 1, w, rem, offers =>
+    if rem.isEmpty then ([], w)
+    else
+      let b := rem.take (nextOffer offers rem.length)
+      let (w', n) := writeResult w b
+      let (fs, wf) := feedFrames fuel w' (rem.drop n) offers.tail
+      (writeFrames w b ++ fs, wf)
+
+theorem wsFeedS_ok {σ} (P : Peer σ) :
+    ∀ (fuel : Nat) (c c' : Chan σ) (w w' : WS) (rem : Bytes) (offers : List Nat),
+      wsFeedS P fuel c w rem offers = (c', .ok w') →
+      Adv P c c' (feedFrames fuel w rem offers).1 ∧ w' = (feedFrames fuel w rem offers).2 := by
+  intro fuel
+  induction fuel with
+  | zero =>
+    intro c c' w w' rem offers h
+    simp only [wsFeedS, Prod.mk.injEq, Except.ok.injEq] at h
+    obtain ⟨rfl, rfl⟩ := h
+    exact ⟨Adv.refl P c, rfl⟩
+  | succ fuel ih =>
+    intro c c' w w' rem offers h
+    unfold wsFeedS at h
+    unfold feedFrames
+    by_cases hre : rem.isEmpty
+    · simp only [hre, if_true, Prod.mk.injEq, Except.ok.injEq] at h ⊢
+      obtain ⟨rfl, rfl⟩ := h
+      exact ⟨Adv.refl P c, rfl⟩
+    · simp only [hre, Bool.false_eq_true, if_false] at h ⊢
+      split at h
+      · simp at h
+      · rename_i c1 w1 n hw
+        obtain ⟨ha, hres⟩ := wsWrite_ok P c c1 w w1 _ n hw
+        rw [← hres]
+        obtain ⟨hb, hw'⟩ := ih c1 c' w1 w' _ _ h
+        exact ⟨ha.trans hb, hw'⟩
+
+/-- the closing frame (none when the stream is done or expedited) -/
+def closeFrames (w : WS) : List Bytes :=
+  if !w.done && w.expHeader.isNone then
+    [(REQUEST_SEGMENT_DOWNLOAD ||| NO_MORE_DATA ||| w.toggle ||| (7 <<< 1)) :: List.replicate 7 0]
+  else []
+
+theorem wsClose_ok {σ} (P : Peer σ) (c c' : Chan σ) (w w' : WS) (h : wsClose P c w = (c', .ok w')) :
+    Adv P c c' (closeFrames w) := by
+  unfold wsClose at h
+  unfold closeFrames
+  by_cases hc : (!w.done && w.expHeader.isNone) = true
+  · simp only [hc, if_true] at h ⊢
+    cases hrr : requestResponse P c
+        ((REQUEST_SEGMENT_DOWNLOAD ||| NO_MORE_DATA ||| w.toggle ||| (7 <<< 1)) :: List.replicate 7 0) with
+    | mk c1 r1 =>
+      rw [hrr] at h
+      cases r1 with
+      | error e => simp at h
+      | ok r =>
+        simp only [Prod.mk.injEq, Except.ok.injEq] at h
+        obtain ⟨rfl, _⟩ := h
+        exact Adv.of_rr hrr
+  · simp only [hc, Bool.false_eq_true, if_false, Prod.mk.injEq, Except.ok.injEq] at h ⊢
+    obtain ⟨rfl, _⟩ := h
+    exact Adv.refl P c
+
+/-- the initiate frame (none for an expedited download) and the stream it creates -/
+def initFrames (idx sub : Nat) (size : Option Nat) (force : Bool) : List Bytes × WS :=
+  if isSegmented size force then
+    ([(REQUEST_DOWNLOAD ||| (if size.isSome then SIZE_SPECIFIED else 0)) :: (muxB idx sub ++ sizeField size)],
+     { size := size, pos := 0, toggle := 0, expHeader := none, done := false })
+  else
+    ([], { size := size, pos := 0, toggle := 0,
+           expHeader := some ((REQUEST_DOWNLOAD ||| EXPEDITED ||| SIZE_SPECIFIED ||| ((4 - size.getD 0) <<< 2))
+             :: muxB idx sub), done := false })
+
+theorem wsInit_ok {σ} (P : Peer σ) (c c' : Chan σ) (idx sub : Nat) (size : Option Nat) (force : Bool) (w : WS)
+    (h : wsInit P c idx sub size force = (c', .ok w)) :
+    Adv P c c' (initFrames idx sub size force).1 ∧ w = (initFrames idx sub size force).2 := by
+  unfold wsInit at h
+  unfold initFrames
+  by_cases hs : isSegmented size force = true
+  · simp only [hs, if_true] at h ⊢
+    cases hrr : requestResponse P c
+        ((REQUEST_DOWNLOAD ||| (if size.isSome then SIZE_SPECIFIED else 0)) :: (muxB idx sub ++ sizeField size)) with
+    | mk c1 r1 =>
+      rw [hrr] at h
+      cases r1 with
+      | error e => simp at h
+      | ok r =>
+        simp only at h
+        split at h
+        · simp at h
+        · simp only [Prod.mk.injEq, Except.ok.injEq] at h
+          obtain ⟨rfl, rfl⟩ := h
+          exact ⟨Adv.of_rr hrr, rfl⟩
+  · simp only [hs, Bool.false_eq_true, if_false, Prod.mk.injEq, Except.ok.injEq] at h ⊢
+    obtain ⟨rfl, rfl⟩ := h
+    exact ⟨Adv.refl P c, rfl⟩
+
+/-- **the frame sequence of a successful download is a function of the call alone** -/
+def downloadFrames (idx sub : Nat) (payload : Bytes) (sized force : Bool) (offers : List Nat) : List Bytes :=
+  let size := if sized then some payload.length else none
+  let (f0, w0) := initFrames idx sub size force
+  let (f1, w1) := feedFrames (2 * payload.length + offers.length + 2) w0 payload offers
+  f0 ++ f1 ++ closeFrames w1
+
+theorem downloadWith_ok {σ} (P : Peer σ) (c c' : Chan σ) (idx sub : Nat) (payload : Bytes)
+    (sized force : Bool) (offers : List Nat)
+    (h : downloadWith P c idx sub payload sized force offers = (c', .ok ())) :
+    Adv P c c' (downloadFrames idx sub payload sized force offers) := by
+  unfold downloadWith at h
+  unfold downloadFrames
+  dsimp only at h ⊢
+  split at h
+  · simp at h
+  · rename_i c1 w hi
+    obtain ⟨a0, hw0⟩ := wsInit_ok P c c1 idx sub _ force w hi
+    split at h
+    · split at h <;> simp at h
+    · rename_i c2 w' hf
+      obtain ⟨a1, hw1⟩ := wsFeedS_ok P _ c1 c2 w w' payload offers hf
+      split at h
+      · simp at h
+      · rename_i c3 w'' hcl
+        simp only [Prod.mk.injEq, Except.ok.injEq, and_true] at h
+        subst h
+        have a2 := wsClose_ok P c2 c3 w' w'' hcl
+        subst hw0 hw1
+        exact (a0.trans a1).trans a2
+
+/-- the same for `download` (no `with`): on success it is the same call sequence -/
+theorem download_ok {σ} (P : Peer σ) (c c' : Chan σ) (idx sub : Nat) (payload : Bytes)
+    (sized force : Bool) (offers : List Nat)
+    (h : download P c idx sub payload sized force offers = (c', .ok ())) :
+    downloadWith P c idx sub payload sized force offers = (c', .ok ()) := by
+  have key : ∀ (fuel : Nat) (c1 c2 : Chan σ) (w w' : WS) (rem : Bytes) (offers : List Nat),
+      wsFeed P fuel c1 w rem offers = (c2, .ok w') → wsFeedS P fuel c1 w rem offers = (c2, .ok w') := by
+    intro fuel
+    induction fuel with
+    | zero => intro c1 c2 w w' rem offers h; simpa [wsFeed, wsFeedS] using h
+    | succ fuel ih =>
+      intro c1 c2 w w' rem offers h
+      unfold wsFeed at h
+      unfold wsFeedS
+      by_cases hre : rem.isEmpty
+      · simpa [hre] using h
+      · simp only [hre, Bool.false_eq_true, if_false] at h ⊢
+        split at h
+        · simp at h
+        · rename_i c3 w3 n hw
+          exact ih _ _ _ _ _ _ h
+  unfold download at h
+  unfold downloadWith
+  dsimp only at h ⊢
+  split at h
+  · simp at h
+  · rename_i c1 w hi
+    split at h
+    · simp at h
+    · rename_i c2 w' hf
+      rw [key _ _ _ _ _ _ _ hf]
+      simp only []
+      split at h
+      · simp at h
+      · rename_i c3 w'' hcl
+        simpa using h
+
+/-- a peer that forwards every request to the strict server (its projection `srv` evolves exactly
+    as the strict server does) and may answer anything at all -/
+def Forwards {σ} (P : Peer σ) (srv : σ → SS) : Prop :=
+  ∀ (p : σ) (req : Bytes), srv (P p req).1 = (ssStep (srv p) req).1
+
+theorem feed_forwards {σ} (P : Peer σ) (srv : σ → SS) (hf : Forwards P srv) (frames : List Bytes) :
+    ∀ p : σ, srv (feedPeer P p frames) = frames.foldl (fun s f => (ssStep s f).1) (srv p) := by
+  induction frames with
+  | nil => intro p; rfl
+  | cons f fs ih =>
+    intro p
+    simp only [feedPeer, List.foldl_cons] at ih ⊢
+    rw [ih, hf]
+
+theorem specPeer_forwards : Forwards specPeer (fun p => p.1) := by
+  intro p req
+  obtain ⟨s, log⟩ := p
+  simp [specPeer]
+
+/-- **A download never reports success with different data.**  Let the peer forward requests to
+    the strict server and do *anything* to the responses (lose, duplicate, delay, corrupt, inject
+    stale or foreign frames, any number of times).  If the `with`-block download returns normally,
+    the server has committed exactly `payload` under `(idx, sub)` — exactly once, and holds it. -/
+theorem download_never_silently_wrong {σ} (P : Peer σ) (srv : σ → SS) (hfw : Forwards P srv)
+    (c c' : Chan σ) (idx sub : Nat) (payload : Bytes) (sized force : Bool) (offers : List Nat)
+    (hidx : idx < 65536) (hsub : sub < 256) (hlen : payload.length < 2 ^ 32)
+    (h : downloadWith P c idx sub payload sized force offers = (c', .ok ())) :
+    (srv c'.peer).commits = (srv c.peer).commits ++ [((idx, sub), payload)] ∧
+    (srv c'.peer).held = ((idx, sub), payload) :: (srv c.peer).held := by
+  -- the disturbed run sent exactly the frames of the call …
+  have hadv := downloadWith_ok P c c' idx sub payload sized force offers h
+  -- … and so does the undisturbed run against the strict server alone, started in the same state
+  let c0 : Chan PS := { peer := (srv c.peer, []), queue := [], sent := [] }
+  obtain ⟨cs, hdl, _, _, hcom, hheld, _⟩ := download_delivers c0 idx sub payload sized force offers hidx hsub hlen
+  have hadv0 := downloadWith_ok specPeer c0 cs idx sub payload sized force offers
+    (download_ok specPeer c0 cs idx sub payload sized force offers hdl)
+  have e1 := feed_forwards P srv hfw (downloadFrames idx sub payload sized force offers) c.peer
+  have e2 := feed_forwards specPeer (fun p => p.1) specPeer_forwards
+    (downloadFrames idx sub payload sized force offers) c0.peer
+  rw [← hadv.1] at e1
+  rw [← hadv0.1] at e2
+  have : srv c'.peer = cs.peer.1 := by rw [e1]; exact e2.symm
+  rw [this]
+  exact ⟨hcom, hheld⟩
+
+/-- the single-disturbance wrapper of the correspondence run is such a peer -/
+theorem distPeer_forwards (at_ : Nat) (k : Kind) :
+    Forwards (distPeer specPeer at_ k) (fun p => p.1.1) := by
+  intro p req
+  obtain ⟨⟨s, log⟩, d⟩ := p
+  simp only [distPeer, specPeer]
+  split <;> (try cases k) <;> rfl
+
+/-! ## uploads: a response the client accepts is the true one, or the call fails -/
+
+/-- `request_response` in terms of what the peer delivers, for any peer -/
+theorem rr_cases {σ} (P : Peer σ) (c : Chan σ) (req : Bytes) :
+    ((P c.peer req).2 = [] ∧ (requestResponse P c req).2 = .error .comm) ∨
+    (∃ r' rest, (P c.peer req).2 = r' :: rest ∧
+      requestResponse P c req =
+        ({ peer := (P c.peer req).1, queue := rest, sent := c.sent ++ [req] }, decodeResponse r')) := by
+  cases hq : (P c.peer req).2 with
+  | nil => left; simp [requestResponse, send, hq]
+  | cons r' rest => right; exact ⟨r', rest, rfl, by simp [requestResponse, send, hq]⟩
+
+def initReq (idx sub : Nat) : Bytes := REQUEST_UPLOAD :: (muxB idx sub ++ [0, 0, 0, 0])
+def segReq (toggle : Nat) : Bytes := (REQUEST_SEGMENT_UPLOAD ||| toggle) :: List.replicate 7 0
+
+/-- The peer forwards requests to the strict server, and whatever it puts *first* into the
+    client's queue after an upload request is either something the client rejects — it differs from
+    the expected response in command specifier, toggle bit or multiplexer, is an abort frame, or is
+    malformed — or it is the server's true response.  (A frame the client accepts that is not the
+    true response is indistinguishable from it by the protocol; no client could do better.) -/
+structure Honest {σ} (P : Peer σ) (srv : σ → SS) : Prop where
+  fw : Forwards P srv
+  init : ∀ (p : σ) (idx sub : Nat) (r' : Bytes) (rest : List Bytes) (s : RS),
+    (P p (initReq idx sub)).2 = r' :: rest → rsInitDecode idx sub (decodeResponse r') = .ok s →
+    (ssStep (srv p) (initReq idx sub)).2 = [r']
+  seg : ∀ (p : σ) (st : RS) (r' : Bytes) (rest : List Bytes) (x : RS × Bytes),
+    (P p (segReq st.toggle)).2 = r' :: rest → rsReadDecode st (decodeResponse r') = .ok x →
+    (ssStep (srv p) (segReq st.toggle)).2 = [r']
+
+theorem rr_spec_one (c0 : Chan PS) (req r : Bytes) (h : (ssStep c0.peer.1 req).2 = [r]) :
+    requestResponse specPeer c0 req =
+      ({ peer := ((ssStep c0.peer.1 req).1, c0.peer.2 ++ [r]), queue := [], sent := c0.sent ++ [req] },
+       decodeResponse r) := by
+  obtain ⟨⟨s, log⟩, q, snt⟩ := c0
+  simp only [requestResponse, send, specPeer] at h ⊢
+  cases hst : ssStep s req with
+  | mk s' rs =>
+    rw [hst] at h
+    simp only at h
+    subst h
+    simp
+
+/-- a successful `ReadableStream.__init__` against an honest peer is, step for step, one against
+    the strict server alone -/
+theorem rsInit_sim {σ} (P : Peer σ) (srv : σ → SS) (hh : Honest P srv) (c c' : Chan σ) (c0 : Chan PS)
+    (hc0 : c0.peer.1 = srv c.peer) (idx sub : Nat) (s : RS) (h : rsInit P c idx sub = (c', .ok s)) :
+    ∃ c0', rsInit specPeer c0 idx sub = (c0', .ok s) ∧ c0'.peer.1 = srv c'.peer := by
+  unfold rsInit at h ⊢
+  dsimp only at h ⊢
+  rcases rr_cases P c (REQUEST_UPLOAD :: (muxB idx sub ++ [0, 0, 0, 0])) with ⟨_, he⟩ | ⟨r', rest, hq, hrr⟩
+  · simp only [Prod.mk.injEq] at h
+    rw [he] at h
+    simp [rsInitDecode] at h
+  · rw [hrr] at h
+    simp only [Prod.mk.injEq] at h
+    obtain ⟨hc', hdec⟩ := h
+    have htrue := hh.init c.peer idx sub r' rest s hq hdec
+    rw [← hc0] at htrue
+    have := rr_spec_one c0 (initReq idx sub) r' htrue
+    simp only [initReq] at this
+    rw [this]
+    refine ⟨_, by rw [hdec], ?_⟩
+    simp only [← hc']
+    rw [hc0]
+    exact (hh.fw c.peer _).symm
+
+theorem rsRead_sim {σ} (P : Peer σ) (srv : σ → SS) (hh : Honest P srv) (c c' : Chan σ) (c0 : Chan PS)
+    (hc0 : c0.peer.1 = srv c.peer) (st : RS) (x : RS × Bytes) (h : rsRead P c st = (c', .ok x)) :
+    ∃ c0', rsRead specPeer c0 st = (c0', .ok x) ∧ c0'.peer.1 = srv c'.peer := by
+  unfold rsRead at h ⊢
+  by_cases hd : st.done = true
+  · simp only [hd, if_true, Prod.mk.injEq, Except.ok.injEq] at h ⊢
+    obtain ⟨rfl, rfl⟩ := h
+    exact ⟨c0, ⟨rfl, rfl⟩, hc0⟩
+  · simp only [hd, Bool.false_eq_true, if_false] at h ⊢
+    cases he : st.expData with
+    | some d =>
+      simp only [he, Prod.mk.injEq, Except.ok.injEq] at h ⊢
+      obtain ⟨rfl, rfl⟩ := h
+      exact ⟨c0, ⟨rfl, rfl⟩, hc0⟩
+    | none =>
+      simp only [he] at h ⊢
+      rcases rr_cases P c ((REQUEST_SEGMENT_UPLOAD ||| st.toggle) :: List.replicate 7 0) with
+        ⟨_, hee⟩ | ⟨r', rest, hq, hrr⟩
+      · simp only [Prod.mk.injEq] at h
+        rw [hee] at h
+        simp [rsReadDecode] at h
+      · rw [hrr] at h
+        simp only [Prod.mk.injEq] at h
+        obtain ⟨hc', hdec⟩ := h
+        have htrue := hh.seg c.peer st r' rest x hq hdec
+        rw [← hc0] at htrue
+        have := rr_spec_one c0 (segReq st.toggle) r' htrue
+        simp only [segReq] at this
+        rw [this]
+        refine ⟨_, by rw [hdec], ?_⟩
+        simp only [← hc']
+        rw [hc0]
+        exact (hh.fw c.peer _).symm
+
+theorem rsReadAll_sim {σ} (P : Peer σ) (srv : σ → SS) (hh : Honest P srv) :
+    ∀ (fuel : Nat) (c c' : Chan σ) (c0 : Chan PS) (st : RS) (acc : Bytes) (y : RS × Bytes),
+      c0.peer.1 = srv c.peer → rsReadAll P fuel c st acc = (c', .ok y) →
+      ∃ c0', rsReadAll specPeer fuel c0 st acc = (c0', .ok y) ∧ c0'.peer.1 = srv c'.peer := by
+  intro fuel
+  induction fuel with
+  | zero =>
+    intro c c' c0 st acc y hc0 h
+    simp only [rsReadAll, Prod.mk.injEq, Except.ok.injEq] at h ⊢
+    obtain ⟨rfl, rfl⟩ := h
+    exact ⟨c0, ⟨rfl, rfl⟩, hc0⟩
+  | succ fuel ih =>
+    intro c c' c0 st acc y hc0 h
+    unfold rsReadAll at h ⊢
+    cases hr : rsRead P c st with
+    | mk c1 r1 =>
+      rw [hr] at h
+      cases r1 with
+      | error e => simp at h
+      | ok x =>
+        obtain ⟨c01, hr0, hc01⟩ := rsRead_sim P srv hh c c1 c0 hc0 st x hr
+        rw [hr0]
+        simp only at h ⊢
+        by_cases hem : x.2.isEmpty = true
+        · simp only [hem, if_true, Prod.mk.injEq, Except.ok.injEq] at h ⊢
+          obtain ⟨rfl, rfl⟩ := h
+          exact ⟨c01, ⟨rfl, rfl⟩, hc01⟩
+        · simp only [hem, Bool.false_eq_true, if_false] at h ⊢
+          exact ih c1 c' c01 x.1 (acc ++ x.2) y hc01 h
+
+/-- **An upload never reports success with different data.**  Let the peer be honest in the sense
+    above — it may lose responses, inject abort frames, deliver responses with the wrong toggle
+    bit, the wrong command specifier or the wrong multiplexer, duplicate them, prepend stale frames
+    that differ in any of these, any number of times at any steps.  If `SdoClient.upload` returns
+    normally, it returns exactly what an undisturbed upload from the same server state returns,
+    which by C01 `upload_returns` is the value the server holds (cut to the dictionary size for
+    fixed-size types). -/
+theorem upload_never_silently_wrong {σ} (P : Peer σ) (srv : σ → SS) (hh : Honest P srv) (c c' : Chan σ)
+    (idx sub : Nat) (v d : Bytes) (odType : Option (Option Nat)) (fuel : Nat)
+    (hidx : idx < 65536) (hsub : sub < 256) (hlen : v.length < 2 ^ 32) (hfuel : v.length + 2 ≤ fuel)
+    (hheld : heldLookup (idx, sub) (srv c.peer).held = some v)
+    (h : upload P c idx sub odType fuel = (c', .ok d)) :
+    ∃ respSize, (respSize = none ∨ respSize = some v.length) ∧
+      d = truncate odType respSize (expectedUpload (srv c.peer).style v) := by
+  let c0 : Chan PS := { peer := (srv c.peer, []), queue := [], sent := [] }
+  -- the disturbed successful run is also a run against the strict server alone …
+  have hsim : ∃ c0', upload specPeer c0 idx sub odType fuel = (c0', .ok d) := by
+    unfold upload at h ⊢
+    cases hi : rsInit P c idx sub with
+    | mk c1 r1 =>
+      rw [hi] at h
+      cases r1 with
+      | error e => simp at h
+      | ok s =>
+        obtain ⟨c01, hi0, hc01⟩ := rsInit_sim P srv hh c c1 c0 rfl idx sub s hi
+        rw [hi0]
+        simp only at h ⊢
+        cases he : s.expData with
+        | some dd =>
+          simp only [he, Prod.mk.injEq, Except.ok.injEq] at h ⊢
+          exact ⟨c01, rfl, h.2⟩
+        | none =>
+          simp only [he] at h ⊢
+          cases hra : rsReadAll P fuel c1 s [] with
+          | mk c2 r2 =>
+            rw [hra] at h
+            cases r2 with
+            | error e => simp at h
+            | ok y =>
+              obtain ⟨c02, hra0, _⟩ := rsReadAll_sim P srv hh fuel c1 c2 c01 s [] y hc01 hra
+              rw [hra0]
+              simp only [Prod.mk.injEq, Except.ok.injEq] at h ⊢
+              exact ⟨c02, rfl, h.2⟩
+  -- … whose result C01 determines
+  obtain ⟨c0', h0⟩ := hsim
+  obtain ⟨c0'', rs, hup, hrs, _⟩ := upload_returns c0 idx sub v odType fuel hidx hsub hlen hfuel hheld
+  rw [hup] at h0
+  simp only [Prod.mk.injEq, Except.ok.injEq] at h0
+  exact ⟨rs, hrs, h0.2.symm⟩
+
+/-! ### honest peers exist: the strict server itself, and any schedule of losses, duplicates and
+    abort frames around it -/
+
+theorem ssStep_le_one (s : SS) (r : Bytes) : (ssStep s r).2 = [] ∨ ∃ x, (ssStep s r).2 = [x] := by
+  unfold ssStep
+  split
+  · left; rfl
+  · dsimp only
+    split
+    · right; unfold onDownInit; dsimp only; split <;> exact ⟨_, rfl⟩
+    · split
+      · right; unfold onDownSeg; split
+        · dsimp only; split <;> exact ⟨_, rfl⟩
+        · exact ⟨_, rfl⟩
+      · split
+        · right; unfold onUpInit; dsimp only; split
+          · exact ⟨_, rfl⟩
+          · split <;> exact ⟨_, rfl⟩
+        · split
+          · right; unfold onUpSeg; split
+            · exact ⟨_, rfl⟩
+            · exact ⟨_, rfl⟩
+          · split
+            · left; rfl
+            · right; exact ⟨_, rfl⟩
+
+theorem schedPeer_honest (sched : Nat → SKind) :
+    Honest (schedPeer specPeer sched) (fun p => p.1.1) := by
+  have key : ∀ (p : PS × Nat) (req r' : Bytes) (rest : List Bytes),
+      ((schedPeer specPeer sched) p req).2 = r' :: rest →
+      (∃ e, decodeResponse r' = .error e) ∨ (ssStep p.1.1 req).2 = [r'] := by
+    intro p req r' rest h
+    obtain ⟨⟨s, log⟩, i⟩ := p
+    simp only [schedPeer, specPeer] at h
+    rcases ssStep_le_one s req with h0 | ⟨x, hx⟩
+    · cases hk : sched i <;> simp [hk, h0] at h
+      · left
+        obtain ⟨rfl, _⟩ := h
+        simp [decodeResponse, RESPONSE_ABORTED]
+    · cases hk : sched i <;> simp [hk, hx] at h
+      · right; obtain ⟨rfl, _⟩ := h; exact hx
+      · right; obtain ⟨rfl, _⟩ := h; exact hx
+      · left
+        obtain ⟨rfl, _⟩ := h
+        simp [decodeResponse, RESPONSE_ABORTED]
+  refine ⟨?_, ?_, ?_⟩
+  · intro p req
+    obtain ⟨⟨s, log⟩, i⟩ := p
+    simp [schedPeer, specPeer]
+  · intro p idx sub r' rest s hq hdec
+    rcases key p _ r' rest hq with ⟨e, he⟩ | h
+    · rw [he] at hdec; simp [rsInitDecode] at hdec
+    · exact h
+  · intro p st r' rest x hq hdec
+    rcases key p _ r' rest hq with ⟨e, he⟩ | h
+    · rw [he] at hdec; simp [rsReadDecode] at hdec
+    · exact h
+
+/-! ## the next transfer -/
+
+/-- **The next transfer completes correctly**, whatever the disturbed one left behind: the server
+    in any phase (mid-download, mid-upload, idle), with or without a recorded illegality (the
+    client's own abort and closing frames after a failure may have been out of sequence), and any
+    stale frames still in the client's queue.  (C01 `download_delivers` and `upload_returns` assume
+    nothing about phase, record or queue.) -/
+theorem next_transfer_clean (c : Chan PS) (idx sub : Nat) (payload v : Bytes) (sized force : Bool)
+    (offers : List Nat) (hidx : idx < 65536) (hsub : sub < 256) (hlen : payload.length < 2 ^ 32)
+    (hv : v.length < 2 ^ 32) :
+    (∃ c', download specPeer c idx sub payload sized force offers = (c', .ok ()) ∧
+      c'.peer.1.commits = c.peer.1.commits ++ [((idx, sub), payload)] ∧
+      c'.peer.1.held = ((idx, sub), payload) :: c.peer.1.held) ∧
+    (heldLookup (idx, sub) c.peer.1.held = some v →
+      ∃ c', upload specPeer c idx sub none (v.length + 2) = (c', .ok (expectedUpload c.peer.1.style v))) := by
+  constructor
+  · obtain ⟨c', h1, _, _, h4, h5, _⟩ := download_delivers c idx sub payload sized force offers hidx hsub hlen
+    exact ⟨c', h1, h4, h5⟩
+  · intro hheld
+    obtain ⟨c', rs, h1, _⟩ := upload_returns c idx sub v none (v.length + 2) hidx hsub hv (by omega) hheld
+    exact ⟨c', by simpa [truncate] using h1⟩
+
 end Canopen.C07
